@@ -43,6 +43,16 @@ func c20MixWeb(cs *c20Case, obs *c20Obs) {
 		obs.Error = err.Error()
 		return
 	}
+	// the very FIRST requests of the process arrive together (lazily initialised state such as the
+	// HTML templates is set up by whichever gets there first); they are compared below with the
+	// answers the same requests get alone
+	firstURLs := []string{"/top", "/flamegraph", "/peek?f=F%5B12%5D", "/source?f=F%5B12%5D", "/top?si=cpu", "/disasm?f=F3"}
+	firstResp := make([]c20Resp, len(firstURLs))
+	firstPanic := make([]string, len(firstURLs))
+	c20Together(len(firstURLs), func(id int) {
+		c20Fl.do(func() { firstPanic[id] = c20Safely(func() { firstResp[id] = web.get(firstURLs[id]) }) })
+		obs.hit("first-requests-together")
+	})
 	// every request alone, twice: the baseline, and whether the page is deterministic at all
 	base := map[string]c20Resp{}
 	var urls []string
@@ -62,6 +72,11 @@ func c20MixWeb(cs *c20Case, obs *c20Obs) {
 	if len(urls) < len(c20URLs)/2 {
 		obs.Error = fmt.Sprintf("only %d of %d web requests are usable as baseline", len(urls), len(c20URLs))
 		return
+	}
+	for i, u := range firstURLs {
+		if b, ok := base[u]; ok && (firstPanic[i] != "" || !firstResp[i].same(b)) {
+			obs.fail("C20/web/first-requests-differ", "the response to %s, sent together with the other first requests of the process, differs from the response to the same request alone (status %d vs %d, panic %q): %s", u, firstResp[i].status, b.status, firstPanic[i], c20FirstDiff(firstResp[i].body, b.body))
+		}
 	}
 	for round := 0; round < cs.Rounds && !c20Enough(obs); round++ {
 		plans := make([][]string, cs.Goroutines)
@@ -360,6 +375,7 @@ func c20MixOptions(cs *c20Case, obs *c20Obs) {
 			obs.fail("C20/options/final-state", "after the assignments ended with nodecount=-1 focus= the report differs from the one of that state")
 		}
 	}
+	c20AssignPhase(cs, obs, readers[0], r)
 	for _, s := range append(readers, writer) {
 		if err := s.close(); err != nil {
 			obs.fail("C20/options/session-error", "interactive session returned %v", err)
@@ -534,15 +550,33 @@ func c20MixFetch(cs *c20Case, obs *c20Obs) {
 	for i := 0; i < cs.Bases; i++ {
 		bases = append(bases, fmt.Sprintf("s%d", cs.Sources+i))
 	}
+	// every invocation tags its profile with its own comment, so that a saved file can be told
+	// from every other one; all saved files of this process are checked again at the end
+	type savedFile struct{ path, tag string }
+	var savedMu sync.Mutex
+	var allSaved []savedFile
+	ntag := 0
+	savedRE := regexp.MustCompile(`Saved profile in (\S+)`)
 	run := func(f *c20Fetcher) (string, []string, error) {
+		savedMu.Lock()
+		ntag++
+		tag := fmt.Sprintf("c20-invocation-%d", ntag)
+		savedMu.Unlock()
 		w, ui := newC20Writer(), newC20UI()
 		o := &plugin.Options{
 			Flagset: c20Flags{args: args, lists: map[string][]string{"base": bases},
-				bools: map[string]bool{"proto": true}, strings: map[string]string{"output": "out", "symbolize": "none"}},
+				bools: map[string]bool{"proto": true}, strings: map[string]string{"output": "out", "symbolize": "none", "add_comment": tag}},
 			Fetch: f, Sym: c20NoSym{}, Obj: c20NoObj{}, UI: ui, Writer: w,
 		}
 		if err := driver.PProf(o); err != nil {
 			return "", ui.messages(), err
+		}
+		for _, m := range ui.messages() {
+			if g := savedRE.FindStringSubmatch(m); g != nil {
+				savedMu.Lock()
+				allSaved = append(allSaved, savedFile{g[1], tag})
+				savedMu.Unlock()
+			}
 		}
 		b, ok := w.get("out")
 		if !ok {
@@ -552,6 +586,7 @@ func c20MixFetch(cs *c20Case, obs *c20Obs) {
 		if err != nil {
 			return "", ui.messages(), err
 		}
+		p.Comments = nil
 		return Canon(p), ui.messages(), nil
 	}
 	// reference: the sources are fetched one at a time (local and "remote" sources give different
@@ -565,15 +600,13 @@ func c20MixFetch(cs *c20Case, obs *c20Obs) {
 		}
 		refs[remote] = ref
 	}
-	savedRE := regexp.MustCompile(`Saved profile in (\S+)`)
 	for round := 0; round < cs.Rounds && !c20Enough(obs); round++ {
 		jit := make([]time.Duration, 7)
 		for i := range jit {
 			jit[i] = time.Duration(r.Intn(2000)) * time.Microsecond
 		}
 		remote := round%2 == 1
-		inv := 1 + r.Intn(3) // PProf invocations at once (identical flags)
-		saved := make([]string, inv)
+		inv := 1 + r.Intn(3) // PProf invocations at once (identical flags apart from the comment)
 		c20Together(inv, func(id int) {
 			var got string
 			var msgs []string
@@ -587,34 +620,49 @@ func c20MixFetch(cs *c20Case, obs *c20Obs) {
 			if ref := refs[remote]; got != ref {
 				obs.fail("C20/fetch/result-differs", "the profile merged from %d sources (+%d bases) fetched in parallel differs from the one obtained when the sources are fetched one at a time", cs.Sources, cs.Bases)
 			}
+			saved := false
 			for _, m := range msgs {
-				if g := savedRE.FindStringSubmatch(m); g != nil {
-					saved[id] = g[1]
+				if savedRE.MatchString(m) {
+					saved = true
 				}
 			}
-			if remote && saved[id] == "" {
+			if remote && !saved {
 				obs.fail("C20/fetch/not-saved", "a profile fetched from a remote source was not saved: %v", msgs)
 			}
 		})
-		seen := map[string]bool{}
-		for _, f := range saved {
-			if f == "" {
-				continue
-			}
-			obs.hit("saved-remote-profile")
-			if seen[f] {
-				obs.fail("C20/tempfile/same-name-twice", "two concurrent invocations saved their profile under the same name %s", f)
-			}
-			seen[f] = true
-			b, err := os.ReadFile(f)
-			if err != nil {
-				obs.fail("C20/tempfile/missing", "saved profile %s does not exist: %v", f, err)
-				continue
-			}
-			if _, err := profile.ParseData(b); err != nil {
-				obs.fail("C20/tempfile/torn-content", "saved profile %s does not parse: %v", f, err)
+	}
+	// every save — one after the other or at the same time — got a name of its own and the file
+	// still holds what that invocation saved
+	seen := map[string]string{}
+	for _, sf := range allSaved {
+		obs.hit("saved-remote-profile")
+		if other, dup := seen[sf.path]; dup {
+			obs.fail("C20/tempfile/saved-name-reused", "two invocations (%s, %s) were told their profile was saved in the same file %s: the later save replaced the earlier one", other, sf.tag, sf.path)
+			continue
+		}
+		seen[sf.path] = sf.tag
+		b, err := os.ReadFile(sf.path)
+		if err != nil {
+			obs.fail("C20/tempfile/missing", "saved profile %s does not exist: %v", sf.path, err)
+			continue
+		}
+		p, err := profile.ParseData(b)
+		if err != nil {
+			obs.fail("C20/tempfile/torn-content", "saved profile %s does not parse: %v", sf.path, err)
+			continue
+		}
+		own := false
+		for _, c := range p.Comments {
+			if c == sf.tag {
+				own = true
 			}
 		}
+		if !own {
+			obs.fail("C20/tempfile/saved-file-overwritten", "%s was reported to %s as its saved profile but now holds another invocation's profile (comments %v)", sf.path, sf.tag, p.Comments)
+		}
+	}
+	if len(allSaved) < 2 {
+		obs.hit("fewer-than-two-saves")
 	}
 }
 
@@ -876,5 +924,69 @@ func c20MixTransport(cs *c20Case, obs *c20Obs) {
 		case got != want:
 			obs.fail("C20/transport/outcome-depends-on-concurrent-fetch", "an https:// source whose certificate does not verify is refused when fetched alone, but %d such sources fetched together with %d https+insecure:// sources changed the result (shared transport state): %s; messages %v", nSec, nIns, c20FirstDiff([]byte(got), []byte(want)), msgs)
 		}
+	}
+}
+
+// c20AssignPhase: every goroutine owns one option and assigns it through the exported
+// driver.SetVariableDefault, all at the same time.  Assignments to DIFFERENT options commute, so
+// whatever the order, afterwards every option must hold the last value its owner assigned (a
+// read-modify-write of the whole option set that is not one critical section loses some).
+func c20AssignPhase(cs *c20Case, obs *c20Obs, reader *c20Session, r *Rng) {
+	owned := []string{"focus", "ignore", "hide", "show", "show_from", "prune_from", "tagfocus", "tagignore", "nodecount", "unit"}
+	rounds := 3 * cs.Rounds
+	for round := 0; round < rounds && !c20Enough(obs); round++ {
+		last := make([]string, len(owned))
+		val := func(g, j int) string {
+			switch owned[g] {
+			case "nodecount":
+				return fmt.Sprint(10 + (round*7+j)%50)
+			case "unit":
+				return []string{"ms", "us", "ns", "s"}[(round+j)%4]
+			case "tagfocus", "tagignore":
+				return fmt.Sprintf("k%d:v%d", round, j)
+			}
+			return fmt.Sprintf("X%dr%dj%d", g, round, j)
+		}
+		c20Together(len(owned), func(g int) {
+			for j := 0; j < 1+cs.Ops/3; j++ {
+				v := val(g, j)
+				c20Fl.do(func() { driver.SetVariableDefault(owned[g], v) })
+				last[g] = v
+			}
+		})
+		obs.hit("concurrent-assignments-round")
+		before := len(reader.ui.messages())
+		reader.ui.run("o")
+		state := map[string]string{}
+		for _, m := range reader.ui.messages()[before:] {
+			for _, ln := range strings.Split(m, "\n") {
+				if kv := strings.SplitN(ln, "=", 2); len(kv) == 2 {
+					v := strings.TrimSpace(kv[1])
+					if i := strings.Index(v, "//:"); i >= 0 {
+						v = strings.TrimSpace(v[:i])
+					}
+					state[strings.TrimSpace(kv[0])] = v
+				}
+			}
+		}
+		var lost []string
+		for g, name := range owned {
+			if state[name] != last[g] {
+				lost = append(lost, fmt.Sprintf("%s=%q (assigned %q)", name, state[name], last[g]))
+			}
+		}
+		if len(lost) > 0 {
+			obs.fail("C20/options/lost-assignment", "after %d goroutines each assigned its own option at the same time, %d options do not hold the value assigned last by their owner — no one-at-a-time order of the assignments gives this state: %v", len(owned), len(lost), lost)
+		}
+	}
+	for _, name := range owned {
+		v := ""
+		switch name {
+		case "nodecount":
+			v = "-1"
+		case "unit":
+			v = "minimum"
+		}
+		driver.SetVariableDefault(name, v)
 	}
 }
